@@ -22,7 +22,11 @@
 (* has to mean faster than the lease, which is how the code's defaults -   *)
 (* heartbeat 50 ms, lease 100 ms - are meant.)  The other nodes are free: their timers fire whenever *)
 (* the code allows, every message from or to them may be delayed up to D   *)
-(* or lost, they may campaign as often as the budget allows.               *)
+(* or lost, they may campaign as often as the budget allows.  HLead may    *)
+(* remove a server outside HMaj (before or during the period); a server    *)
+(* whose removal HLead has adopted may be ahead in term when the period    *)
+(* begins - its vote requests and late answers must not matter (seeded     *)
+(* change C16c, weakening RemovedReplyHonoured).                           *)
 (***************************************************************************)
 EXTENDS RaftTimed
 
@@ -41,9 +45,14 @@ BeginHealthy ==
   /\ ~hp
   /\ ns[HLead].role = "L" /\ lease[HLead] > 0      \* prompt contact is already established
   /\ \A n \in HMaj : ns[n].term = ns[HLead].term /\ (n # HLead => ns[n].role = "F" /\ age[n] < E)
-  /\ \A n \in Node : ns[n].term <= ns[HLead].term
-  /\ \A m \in net : (m.kind \in {"rvq", "aeq"} => m.term <= ns[HLead].term)
-                    /\ (m.kind \in {"rvr", "aer"} => m.reply.term <= ns[HLead].term /\ m.req.term <= ns[HLead].term)
+  \* ... among the members of the configuration HLead works with: what a server that HLead has
+  \* REMOVED (the removal committed and adopted before the period begins) carries in its term, its
+  \* vote requests and its late answers is part of "the behaviour of the remaining nodes"
+  /\ HMaj \subseteq ns[HLead].cfg.v /\ ~PendingCfg(ns[HLead])
+  /\ \A n \in MembersOf(ns[HLead]) : ns[n].term <= ns[HLead].term
+  /\ \A m \in net : (m.kind = "aeq" \/ (m.kind = "rvq" /\ m.from \in MembersOf(ns[HLead])) => m.term <= ns[HLead].term)
+                    /\ (m.kind = "rvr" \/ (m.kind = "aer" /\ m.from \in MembersOf(ns[HLead]))
+                          => m.reply.term <= ns[HLead].term /\ m.req.term <= ns[HLead].term)
   /\ hp' = TRUE /\ t0' = ns[HLead].term /\ hbt' = FALSE
   /\ UNCHANGED tvars
 
@@ -60,6 +69,8 @@ HNext ==
   \/ \E n \in Node : TTimerFire(n) /\ (~hp => n \in {HLead} \cup PreCampaign) /\ UNCHANGED hvars
   \/ \E n \in Node : TStartRound(n) /\ hbt' = (hbt \/ n = HLead) /\ UNCHANGED <<hp, t0>>
   \/ \E m \in net : (TRVHandle(m) \/ TRVReply(m) \/ TAEHandle(m) \/ TAEReply(m)) /\ UNCHANGED hvars
+  \* HLead removes a server outside HMaj (budget MaxCfg; none in MC_healthy, one in MC_healthy_member)
+  \/ \E p \in Node \ HMaj : RemoveServer(HLead, p) /\ MageNext /\ UNCHANGED <<age, lease, tage>> /\ UNCHANGED hvars
 
 \* C16
 HealthyStable ==
